@@ -1438,6 +1438,13 @@ private:
       return false;
     }
 
+    if (str.size() > _limits.stringLengthMax)
+    {
+      // the last character (or escape) before the closing quote crossed the limit
+      _error = "String length exceeds limit";
+      return false;
+    }
+
     ++_pos; // Skip closing quote
     out = Json(std::move(str));
     return true;
